@@ -167,8 +167,30 @@ func runClientCache(c *Ctx) error {
 		steps := 2 + c.Rng.Intn(7)
 		// exhaustive-ish small space in the first cases: only 2 tags x 2 addrs x 2 cmds
 		small := i < n/3
-		for s := 0; s < steps; s++ {
-			k := c.Rng.Intn(10)
+		// script: a forced continuation (op codes) on forcedSid — the history shape "a session expires, a
+		// by-id lookup (LookupNonExpired) drops the entry but not its mappings, then the sweep / an explicit
+		// invalidation runs": the routes left behind are visible only in the RAW command map
+		var script []int
+		forcedSid := ""
+		pickSid := func() string {
+			if forcedSid != "" {
+				return forcedSid
+			}
+			return pick(c, sids)
+		}
+		for s := 0; s < steps || len(script) > 0; s++ {
+			k := c.Rng.Intn(11)
+			if len(script) > 0 {
+				k, script = script[0], script[1:]
+			} else {
+				forcedSid = ""
+				if len(sids) > 0 && c.Rng.Intn(6) == 0 {
+					forcedSid = pick(c, sids)
+					script = pick(c, [][]int{{10, 9}, {10, 8}, {10, 0, 9}, {10, 9, 9}, {9, 10, 9}})
+					k = 7
+					c.Count("shape:expire-lookup-sweep")
+				}
+			}
 			switch {
 			case k < 6:
 				t := pick(c, all)
@@ -341,12 +363,12 @@ func runClientCache(c *Ctx) error {
 				ops, real = ops[:len(ops)-1], real[:len(real)-1]
 				c.Count("op:restart")
 			case k == 7 && len(sids) > 0:
-				sid := pick(c, sids)
+				sid := pickSid()
 				expireEntry(cache, sid)
 				expired[sid] = true
 				log("cexpire "+sid, "ok")
 			case k == 8 && len(sids) > 0:
-				sid := pick(c, sids)
+				sid := pickSid()
 				cache.Invalidate(sid)
 				for tt, x := range ref {
 					if x == sid {
@@ -354,6 +376,13 @@ func runClientCache(c *Ctx) error {
 					}
 				}
 				log("cinvalidate "+sid, "ok")
+				// ---- property oracle C07: invalidating a session removes every route to it ----
+				for key, x := range security.VerifCommandMap(cache) {
+					if x == sid {
+						c.Violate(Violation{Property: "C07", Key: "C07:route-survives-invalidate", What: "after Invalidate(sid) the command map still holds a mapping that leads to that identifier",
+							Ops: append([]string{}, ops...), Expected: "no mapping -> " + sid, Observed: key + " -> " + x})
+					}
+				}
 			case k == 9:
 				cache.InvalidateExpired()
 				for tt, x := range ref {
@@ -362,7 +391,31 @@ func runClientCache(c *Ctx) error {
 					}
 				}
 				log("cgc", "ok")
+				// ---- property oracle C07: after the expiry sweep no mapping leads to an identifier the cache does not hold ----
+				held := map[string]bool{}
+				for _, e := range cache.Snapshot() {
+					held[e.ID()] = true
+				}
+				for key, x := range security.VerifCommandMap(cache) {
+					if !held[x] {
+						c.Violate(Violation{Property: "C07", Key: "C07:dangling-route-after-sweep", What: "after InvalidateExpired the command map holds a mapping that leads to an identifier the cache does not hold (an expired session whose entry a by-id lookup had already dropped keeps its routes)",
+							Ops: append([]string{}, ops...), Expected: "every mapping leads to a cached session", Observed: key + " -> " + x})
+					}
+				}
+			case k == 10 && len(sids) > 0:
+				// a by-id lookup (LookupNonExpired — what the explicit-SessionID path and the server's
+				// resumption path call): an expired entry is dropped on the way, its mappings are not
+				sid := pickSid()
+				r := "ok none"
+				if e, ok := cache.LookupNonExpired(sid); ok {
+					r = "ok sid=" + e.ID()
+				}
+				c.Count("op:lookup-by-id")
+				log("cget "+sid, r)
 			}
+			// the RAW command map (key -> sid, sorted) against the model's: LookupByCommand cannot show a
+			// mapping whose session is gone
+			log("cmap", "ok"+ccRawMap(cache))
 			// compare every route with the model, and with the reference map
 			for _, t := range all {
 				e, ok := cache.LookupByCommand(t.tag, t.addr, t.cmd)
@@ -533,6 +586,20 @@ func ccRetryCases(c *Ctx) []Case {
 		cases = append(cases, Case{Label: fmt.Sprintf("clientcache/retry#%d", i), Ops: ops, Real: real})
 	}
 	return cases
+}
+
+// ccRawMap renders the cache's command map as the oracle's `cmap` does: " key->sid" sorted by key.
+func ccRawMap(cache *security.SessionCache) string {
+	var rows []string
+	for k, v := range security.VerifCommandMap(cache) {
+		rows = append(rows, k+"->"+strOrTilde(v))
+	}
+	sort.Strings(rows)
+	var b strings.Builder
+	for _, r := range rows {
+		b.WriteString(" " + r)
+	}
+	return b.String()
 }
 
 // ccErrClass: a class for an error of the public client entry point (never its text).
